@@ -116,6 +116,9 @@ def run(eng, rep) -> None:
     rep.rule("R07.5", "%ignore = space, tab, newline, comments; ignored terminals are not greedy")
     rep.rule("R07.7", "optional numeric parameters (range bounds, ...) are compared with None, never tested by truth value")
     rep.rule("R07.6", "discriminators used on mixed children separate the child kinds")
+    rep.rule("R07.9", "every step of a table of field-annotation handlers builds on the annotations accumulated so far")
+    from .lints import fold_step_drops_accumulator
+    fold_step_drops_accumulator(eng, rep, "R07.9", ("fcp.parser", "fcp.specs"), "a unit written before a range (or the other way round) is lost from the schema")
     rep.rule("R07.8", "a record built positionally from variables named like its own fields gets each in the position of the field of that name")
     from .lints import swapped_record_args
     swapped_record_args(eng, rep, "R07.8", ("fcp.parser", "fcp.specs"), "the values of the two fields are exchanged in every object built here, so the schema says something else than the source text")
